@@ -63,8 +63,8 @@ async fn catalogue(index_manager: &Addr<RaftIndexManager>) -> String {
     }
 }
 
-async fn run_op(store: &FileStore, log_manager: &Addr<RaftLogManager>, index_manager: &Addr<RaftIndexManager>, l: &str) -> String {
-    let r = run_op_inner(store, log_manager, index_manager, l).await;
+async fn run_op(store: &FileStore, log_manager: &Addr<RaftLogManager>, index_manager: &Addr<RaftIndexManager>, snapshot_manager: &Addr<RaftSnapshotManager>, l: &str) -> String {
+    let r = run_op_inner(store, log_manager, index_manager, snapshot_manager, l).await;
     let first = l.split_whitespace().next().unwrap_or("");
     if WITH_CAT.load(std::sync::atomic::Ordering::Relaxed) && matches!(first, "a" | "b" | "del" | "compact" | "inst") {
         // a round trip through the log manager first: its catalogue writes are queued before its answer
@@ -75,7 +75,7 @@ async fn run_op(store: &FileStore, log_manager: &Addr<RaftLogManager>, index_man
     }
 }
 
-async fn run_op_inner(store: &FileStore, log_manager: &Addr<RaftLogManager>, index_manager: &Addr<RaftIndexManager>, l: &str) -> String {
+async fn run_op_inner(store: &FileStore, log_manager: &Addr<RaftLogManager>, index_manager: &Addr<RaftIndexManager>, snapshot_manager: &Addr<RaftSnapshotManager>, l: &str) -> String {
     let ws: Vec<&str> = l.split_whitespace().collect();
     match ws.as_slice() {
         ["a", i, t, len, sd] => match store.append_entry_to_log(&entry(n(i), n(t), n(len), n(sd))).await {
@@ -143,6 +143,46 @@ async fn run_op_inner(store: &FileStore, log_manager: &Addr<RaftLogManager>, ind
                 Err(_) => "err".to_string(),
             }
         }
+        // a snapshot as `do_build_snapshot` registers it (C04): a new snapshot file through the manager's writer (header
+        // only), flushed, then `CompleteSnapshot` - which unlinks older snapshot files and rewrites the catalogue
+        ["snap", end] => {
+            use rnacos::raft::filestore::raftsnapshot::{RaftSnapshotRequest, RaftSnapshotResponse, SnapshotWriterRequest};
+            let header = rnacos::raft::filestore::model::SnapshotHeaderDto {
+                last_index: n(end),
+                last_term: 1,
+                member: vec![],
+                member_after_consensus: vec![],
+                node_addrs: Default::default(),
+            };
+            match snapshot_manager.send(RaftSnapshotRequest::NewSnapshot(header)).await {
+                Ok(Ok(RaftSnapshotResponse::NewSnapshot(writer, id, _path))) => {
+                    // the writer answers a flush before it ran: the second answer follows the first flush
+                    let _ = writer.send(SnapshotWriterRequest::Flush).await;
+                    let _ = writer.send(SnapshotWriterRequest::Flush).await;
+                    let range = rnacos::raft::filestore::log::SnapshotRange { id, end_index: n(end) };
+                    match snapshot_manager.send(RaftSnapshotRequest::CompleteSnapshot(range)).await {
+                        Ok(Ok(_)) => {
+                            // the catalogue write is queued at the index manager: a round trip through it
+                            let _ = catalogue(index_manager).await;
+                            "ok".to_string()
+                        }
+                        _ => "err".to_string(),
+                    }
+                }
+                _ => "err".to_string(),
+            }
+        }
+        // the snapshot a start would load: the last one the catalogue names - does its file exist?
+        ["lastsnap"] => {
+            use rnacos::raft::filestore::raftsnapshot::{RaftSnapshotRequest, RaftSnapshotResponse};
+            match snapshot_manager.send(RaftSnapshotRequest::GetLastSnapshot).await {
+                Ok(Ok(RaftSnapshotResponse::LastSnapshot(Some(path), _))) => {
+                    if std::fs::File::open(&path).is_ok() { "lastsnap ok".to_string() } else { "lastsnap missing".to_string() }
+                }
+                Ok(Ok(RaftSnapshotResponse::LastSnapshot(None, _))) => "lastsnap none".to_string(),
+                _ => "err".to_string(),
+            }
+        }
         ["hs", t, v] => {
             let hs = async_raft_ext::storage::HardState { current_term: n(t), voted_for: if n(v) == 0 { None } else { Some(n(v)) } };
             match store.save_hard_state(&hs).await {
@@ -183,12 +223,12 @@ pub fn start_session(dir: std::path::PathBuf) -> Option<Session> {
             let log_manager = RaftLogManager::new(base_path.clone(), Some(index_manager.clone())).start();
             let snapshot_manager = RaftSnapshotManager::new(base_path.clone(), Some(index_manager.clone())).start();
             let apply_manager = StateApplyManager::new().start();
-            let store = FileStore::new(1, index_manager.clone(), snapshot_manager, log_manager.clone(), apply_manager);
+            let store = FileStore::new(1, index_manager.clone(), snapshot_manager.clone(), log_manager.clone(), apply_manager);
             // first round trip: the managers have finished their asynchronous start
             let ok = store.get_last_log_index().await.is_ok();
             let _ = ready_tx.send(ok);
             while let Some((op, reply)) = rx.recv().await {
-                let r = run_op(&store, &log_manager, &index_manager, &op).await;
+                let r = run_op(&store, &log_manager, &index_manager, &snapshot_manager, &op).await;
                 let _ = reply.send(r);
             }
             // let the periodic flush of the log actors run once more before everything is dropped
